@@ -39,6 +39,34 @@ def utc_name_cases():
     return fails
 
 
+def write_order_cases(ctx):
+    """the order in which create writes (per history: the manifest through its temporary, then the chain through its
+    temporary; nested histories before their parents) is the order the model's commit and crash theorems assume: the
+    recorded file-system operations of real runs on nested worlds must be accepted by that protocol"""
+    import os, shutil
+    from .. import rt, scenario, crash
+    from .C15 import protocol_accepts
+
+    out = []
+    for k, (nested, final_at, sf) in enumerate([(["s", "s/t"], "", None), (["s/t"], "", None), (["s"], "", ["a.txt"]), ([], "", None)]):
+        base = rt.mktemp("c06w_")
+        try:
+            impl = scenario.Impl({"root": "root", "tree": {"a.txt": "alpha", "s/b.txt": "beta", "s/t/c.txt": "gamma"}}, base)
+            t = 0
+            for d in nested + [""]:
+                t += 1
+                impl.run({"op": "create", "at": d, "h": ["md5"], "now": "2026-03-01 12:00:%02d" % t})
+            fin = {"op": "create", "at": final_at, "h": ["sha1"], "now": "2026-03-01 12:30:00"}
+            if sf:
+                fin["sf"] = sf
+            trace, _ = crash.record_trace(lambda: impl.run(fin), watch_prefix=os.path.abspath(impl.root))
+            for p in protocol_accepts(trace, impl.root):
+                out.append({"what": f"write order of create (nested histories {nested}) is not the protocol of the model: {p}", "replay": {"nested": nested, "final": fin}})
+        finally:
+            shutil.rmtree(base, ignore_errors=True)
+    return out
+
+
 def run(ctx):
     scs = _scn.standard_pool(ctx, ctx.scale(50, 900), ctx.scale(30, 400), ctx.scale(4, 40))
     # folder and file names in decomposed unicode form (as copied from macOS volumes), nested
@@ -46,7 +74,7 @@ def run(ctx):
            "ops": [{"op": "create", "at": "e\u0301", "h": ["md5"], "now": "2026-03-01 12:00:00"}, {"op": "create", "at": "", "h": ["md5"], "now": "2026-03-01 12:00:01"},
                    {"op": "create", "at": "", "h": ["c4"], "now": "2026-03-01 12:00:02"}, {"op": "verify", "at": ""}, {"op": "info", "at": ""}]}
     scs.insert(0, nfd)
-    return _scn.run_scn(ctx, scs, M.m_c06, extra_fails=utc_name_cases(), assumptions=["the clock is the injected one (freezegun); several runs share a clock second on purpose"])
+    return _scn.run_scn(ctx, scs, M.m_c06, extra_fails=utc_name_cases(), extra_diffs=write_order_cases(ctx), assumptions=["the clock is the injected one (freezegun); several runs share a clock second on purpose"])
 
 
 def replay(ctx, path):
